@@ -30,6 +30,7 @@ ASSUMPTIONS = ['ref/cookie.py decides validity of arbitrary cookie strings seman
                'the virtual clock replaces clastic.middleware.cookie.time and secure_cookie.cookie.time']
 
 KEY = b'k1-secret'
+UKEY = u'\u043f\u0430\u0440\u043e\u043b\u044c-k\xe9y'
 VALUES = [1, 'x?>~', {'n': [1, u'\xe9']}, '', None]
 T0 = 1000000.0
 EXPIRY = 100
@@ -131,7 +132,9 @@ class World(object):
             kw = {'expiry': {'session': SESSION, 'never': NEVER, 'numeric': EXPIRY}[expiry]}
         if custom_names:
             kw.update(arg_name='sess', cookie_name='sid')
-        if explicit_secret:
+        if explicit_secret == 'unicode':
+            kw['secret_key'] = UKEY          # a text secret with non-ASCII characters
+        elif explicit_secret:
             kw['secret_key'] = KEY
         # the middleware's source of random secrets is a seam too: a deterministic stream (distinct per instance,
         # derived from VERIF_SEED), so that the explored state space is the same in every run
@@ -161,9 +164,18 @@ class World(object):
                % ((arg,) * 7))
         ns = {'JSON': json, 'RESP': Response}
         exec(src, ns)
-        self.app = Application([('/', ns['ep'])], middlewares=[self.mw])
+        # post/redirect/get: the same operations on a route whose render step is clastic's Redirector
+        exec('def ep_go(%s, request):\n    ep(%s, request)\n    return {"done": 1}\n' % (arg, arg), ns)
+        from clastic.utils import Redirector
+        self.app = Application([('/', ns['ep']), ('/go', ns['ep_go'], Redirector('/', code=303))], middlewares=[self.mw])
         self.foreign_app = Application([('/', ns['ep'])], middlewares=[self.foreign_mw])
-        self.key = self.mw.secret_key if isinstance(self.mw.secret_key, bytes) else self.mw.secret_key.encode('utf-8')
+        # the reference's key is the *configured* secret (read from the middleware only when it made one up itself)
+        if explicit_secret == 'unicode':
+            self.key = UKEY.encode('utf-8')
+        elif explicit_secret:
+            self.key = KEY
+        else:
+            self.key = self.mw.secret_key if isinstance(self.mw.secret_key, bytes) else self.mw.secret_key.encode('utf-8')
 
     def install_clock(self):
         self._orig = (self.cm.time, self.sc.time)
@@ -183,7 +195,10 @@ class World(object):
         hdrs = {}
         if raw_cookie is not None:
             hdrs['Cookie'] = ('%s=%s' % (self.cookie_name, raw_cookie)).encode('utf-8', 'surrogateescape').decode('latin-1')
-        res = wsgi.call(app, '/', 'GET', query=q, headers=hdrs)
+        path = '/'
+        if op.endswith('-r'):
+            path, q = '/go', q.replace('op=%s' % op, 'op=%s' % op[:-2])
+        res = wsgi.call(app, path, 'GET', query=q, headers=hdrs)
         new_cookie = None
         for sc in res.header_all('Set-Cookie') if res.headers else ():
             name, _, rest = sc.partition('=')
@@ -199,12 +214,13 @@ def initial_state():
 
 CLIENT_OPS = {
     0: [('set', 'a', 0), ('set', 'a', 1), ('set', u'\xe9', 2), ('set', 'a', 3), ('set', 'b', 4), ('delete', 'a', None),
-        ('read', None, None), ('clear', None, None), ('logout', None, None)],
-    1: [('set', 'a', 0), ('set', u'\xe9', 2), ('read', None, None)],
+        ('read', None, None), ('clear', None, None), ('logout', None, None), ('set-r', 'b', 1), ('read-r', None, None)],
+    1: [('set', 'a', 0), ('set', u'\xe9', 2), ('read', None, None), ('read-r', None, None)],
 }
 TAMPERS = ['flip-mac', 'flip-mac-lowbits', 'flip-key', 'flip-payload', 'truncate', 'extend-item', 'extend-amp',
            'swap-mac', 'swap-payload', 'resign-other-key', 'foreign-instance', 'random-bytes', 'non-ascii', 'bad-b64-1',
-           'bad-b64-2', 'bad-b64-3', 'no-question', 'no-equals', 'empty', 'quotes', 'nonascii-key']
+           'bad-b64-2', 'bad-b64-3', 'no-question', 'no-equals', 'empty', 'quotes', 'nonascii-key',
+           'resign-ascii-replace', 'resign-ascii-ignore', 'resign-latin1-replace']
 ADVANCES = [EXPIRY, EXPIRY + 1]
 
 
@@ -226,6 +242,15 @@ def _tamper(w, kind, mine, other):
         return fixed[kind]
     if kind == 'resign-other-key':
         return RC.sign({'a': 'evil', 'admin': True}, b'some-other-key')
+    if kind.startswith('resign-') :
+        # keys an attacker can guess when a text secret is squeezed into a narrower charset somewhere
+        if w.explicit != 'unicode':
+            return None
+        enc, _, how = kind[len('resign-'):].partition('-')
+        k2 = UKEY.encode('latin-1' if enc == 'latin1' else 'ascii', how)
+        if k2 == w.key:
+            return None
+        return RC.sign({'a': 'evil', 'admin': True}, k2)
     if kind == 'foreign-instance':
         res, c = w.request(w.foreign_app, None, 'set', 'a', json.dumps('foreign'))
         return cookie_unquote(c) if c else None
@@ -293,6 +318,9 @@ def successors(w, state):
             bad = None
             if res.raised is not None:
                 bad = ('raised-%s' % type(res.raised).__name__, 'application raised %r' % (res.raised,))
+            elif op.endswith('-r'):
+                if res.code != 303:
+                    bad = ('status-%s' % res.code, 'status %s instead of the redirect 303' % res.status)
             elif res.code != 201:
                 bad = ('status-%s' % res.code, 'status %s instead of the endpoint\'s 201' % res.status)
             else:
@@ -300,7 +328,7 @@ def successors(w, state):
                 if seen['before'] != json.loads(json.dumps(model)):
                     bad = ('presented', 'endpoint was presented %r, expected %r' % (seen['before'], model))
             after = dict(model)
-            if op == 'set':
+            if op in ('set', 'set-r'):
                 after[k] = VALUES[vi]
             elif op == 'delete':
                 after.pop(k, None)
@@ -383,7 +411,7 @@ def explore(acc, cfg, depth, shard_i, nshards):
 
 def configs():
     return [(e, c, x) for e in ('session', 'never', 'numeric') for c in (False, True) for x in (True, False)] + \
-           [('numeric-deprecated', False, True)]
+           [('numeric-deprecated', False, True), ('session', False, 'unicode'), ('numeric', False, 'unicode')]
 
 
 def nshards(tier):
